@@ -232,22 +232,51 @@ def run(ctx):
                 ctx.tick(len(g2), ("B", ver, frac, float(uu)))
                 for c, i, e, o in v3:
                     ctx.violation(c, {"kind": "taus", "version": ver, "frac": frac, "logE": [g2[i, 0]], "beta": [g2[i, 1]], "u": float(uu)}, e, o)
-    # one long-lived Taus object, etau_frac changed between calls (a parameter scan re-using the loaded tables)
+    # one long-lived Taus object, etau_frac changed between calls (a parameter scan re-using the loaded tables): set in
+    # place, by replacing the tau_shower section, or by replacing the whole simulation section -- all sequences
+    import itertools as _it
+
+    steps = [(h, f) for h in FRAC_HOWS for f in (0.1, 1.0, 0.25)]
+    nfh = 0
+    for d in ((1, 2) if ctx.tier == "quick" else (1, 2, 3)):
+        for sq in _it.product(range(len(steps)), repeat=d):
+            seq = [list(steps[i]) for i in sq]
+            nfh += 1
+            ctx.tick(2 * (d + 1), ("frac_history",) + tuple(sq))
+            for c, e, o in judge_frac_history(seq):
+                ctx.violation(c, {"kind": "frac_history", "seq": seq}, e, o)
+    ctx.cov["etau_frac_histories"] = nfh
+    ctx.sample({"part": "B", "version": 3, "etau_frac": 0.5, "logE": float(g2[3, 0]), "beta_rad": float(g2[3, 1]), "u": float(us[5]), "tauEnergy_GeV": float(tE[3])})
+
+
+FRAC_HOWS = ["set", "section", "simulation"]
+
+
+def judge_frac_history(seq):
+    """ONE Taus object on one live configuration; between calls etau_frac is changed as (how, value): set in place, the
+    tau_shower section replaced, or the whole simulation section replaced; every call: shower energy = the fraction IN
+    FORCE x tau energy / 1e8"""
     from nuspacesim.config import NssConfig, Simulation
     from nuspacesim.simulation.taus.taus import Taus
 
     cfgm = NssConfig(simulation=Simulation(tau_shower=Simulation.NuPyPropShower(etau_frac=0.5, table_version="3")))
     tm = Taus(cfgm)
-    for frac in (0.5, 0.1, 1.0, 0.25, 0.5):
-        cfgm.simulation.tau_shower.etau_frac = frac
+    frac = 0.5
+    for step in range(len(seq) + 1):
+        if step:
+            how, frac = seq[step - 1]
+            if how == "set":
+                cfgm.simulation.tau_shower.etau_frac = frac
+            elif how == "section":
+                cfgm.simulation.tau_shower = Simulation.NuPyPropShower(etau_frac=frac, table_version="3")
+            else:
+                cfgm.simulation = cfgm.simulation.model_copy(update={"tau_shower": Simulation.NuPyPropShower(etau_frac=frac, table_version="3")})
         with RngStub(fn=lambda idx, n: np.full(n, 0.37)).installed():
             tb, tl, te, se, pe = tm(np.array([0.1, 0.3]), np.array([8.0, 10.0]))
-        ctx.tick(2, ("frac_history", frac))
         exp = frac * te / 1e8
         if not np.all(ulps(se, exp) <= 2):
-            ctx.violation("shower_energy", {"kind": "frac_history", "fracs": [0.5, 0.1, 1.0, 0.25, 0.5], "at": frac}, exp.tolist(), np.asarray(se).tolist())
-            break
-    ctx.sample({"part": "B", "version": 3, "etau_frac": 0.5, "logE": float(g2[3, 0]), "beta_rad": float(g2[3, 1]), "u": float(us[5]), "tauEnergy_GeV": float(tE[3])})
+            return [("shower_energy", f"after {seq[:step]}: {exp.tolist()}", np.asarray(se).tolist())]
+    return []
 
 
 def replay(case):
@@ -289,19 +318,7 @@ def replay(case):
             prev = np.inf
         return [] if (err <= 1.0 / m and err < prev) else [("mean_decay_length", f"<=1/{m}", err)]
     if k == "frac_history":
-        from nuspacesim.config import NssConfig, Simulation
-        from nuspacesim.simulation.taus.taus import Taus
-
-        cfgm = NssConfig(simulation=Simulation(tau_shower=Simulation.NuPyPropShower(etau_frac=0.5, table_version="3")))
-        tm = Taus(cfgm)
-        for frac in case["fracs"]:
-            cfgm.simulation.tau_shower.etau_frac = frac
-            with RngStub(fn=lambda idx, n: np.full(n, 0.37)).installed():
-                tb, tl, te, se, pe = tm(np.array([0.1, 0.3]), np.array([8.0, 10.0]))
-            exp = frac * te / 1e8
-            if not np.all(ulps(se, exp) <= 2):
-                return [("shower_energy", exp.tolist(), np.asarray(se).tolist())]
-        return []
+        return judge_frac_history(case["seq"])
     if k == "taus":
         v, _ = judge_taus(case["version"], case["frac"], np.array(case["logE"]), np.array(case["beta"]), case["u"])
         return [(c, e, o) for c, i, e, o in v]
